@@ -166,6 +166,11 @@ def run_abf(exe, case, scratch, timeout=30.0):
                 out[k] = (w, [x for x in r if x.startswith(("SAVE", "LOAD", "CONFIG"))], parse_shared(r))
                 first[w] = True
                 last[w] = t[w] if t[w] is not None else S0
+            elif ev[0] == "c":
+                # a configuration that is refused, in the middle of the session (a second ABF bias on a variable that does not exist,
+                # with sharing on): nothing of the running bias may change
+                r = T.walkers[w].do(["config EOF", "abf {", "  name bad", "  colvars nosuch", "  shared on", "  sharedFreq 1", "}", "EOF", "dumpshared a"], timeout)
+                out[k] = (w, [x for x in r if x.startswith("CONFIG")], parse_shared(r))
             elif ev[0] == "o":
                 # end-of-run output of walker w (write_output_files: .count/.grad/.pmf of the local and, on replica 0, of the
                 # shared grids); changes nothing in the grids
@@ -604,13 +609,14 @@ def run_czar(exe, case, scratch, timeout=30.0):
         # ABF and CZAR gradient sums stay zero
         setup = ["natoms 1", "samestep 0", "temperature 300", "dt 1", "new", "config EOF"] + czar_conf(case) + \
                 ["EOF", "outprefix out", "show cv 0 energy 0 bias 0 atomf 0"]
+        cur_freq = case["freq"]
         for r in T.all_do(setup, timeout):
             if not any(x.startswith("CONFIG err=ok") for x in r):
                 raise W.WalkerTimeout("configuration failed: %s" % r)
         for t, row in enumerate(case["steps"]):
             T.all_do(lambda i: ["pos 1 0 0 %s" % float(row[i][0] + row[i][1]).hex(),
                                 "eforce 1 0 0 %s" % float(row[i][2]).hex(), "step"], timeout)
-            if case.get("script") and (t + 1) % case["freq"] == 0:
+            if case.get("script") and (t + 1) % cur_freq == 0:
                 # sharing switched on (and performed) by the script command, on all walkers together
                 T.all_do(["script cv bias a share"], timeout)
             if t in case["gather_at"]:
@@ -626,6 +632,12 @@ def run_czar(exe, case, scratch, timeout=30.0):
             if fmts:
                 # the job ends here and is started again: every walker goes through its state file (walker w in format fmts[w])
                 bs = [parse_shared(r) for r in T.all_do(["dumpshared a"], timeout)]
+                if case.get("freq2"):
+                    # the new job is configured with another exchange (and output) frequency: legal, the state does not carry it
+                    cur_freq = case["freq2"]
+                    setup = [x for x in setup if x not in czar_conf(case)]
+                    k_ = setup.index("config EOF") + 1
+                    setup = setup[:k_] + czar_conf(dict(case, freq=cur_freq)) + setup[k_:]
                 rs = T.all_do(lambda i: [save_cmd(fmts[i], "zst%d" % t)] + setup + [load_cmd(fmts[i], "zst%d" % t), "dumpshared a"], timeout)
                 for w, (b, r) in enumerate(zip(bs, rs)):
                     restarts.append((t, w, fmts[w], b, parse_shared(r), [x for x in r if x.startswith(("SAVE", "LOAD", "CONFIG"))]))
